@@ -438,8 +438,12 @@ fn h2_case(rng: &mut Rng, ctx: &mut Ctx) {
                 // first registration is an absent optional service, the rest through Router::add_service
                 let _ = routes;
                 let mut r = Server::builder().add_optional_service(None::<r0::s_server::SServer<H>>);
-                for &i in &order2 {
+                for (k, &i) in order2.iter().enumerate() {
                     r = add_router(r, i, h2c.clone());
+                    if (wrap >> k) & 1 == 1 {
+                        // an absent optional service in the middle / at the end of the chain
+                        r = r.add_optional_service(None::<r1::sx_server::SxServer<H>>);
+                    }
                 }
                 r
             }
